@@ -119,7 +119,7 @@ def _nv_post(A, r):
     return And(*conds)
 
 
-contract(f"{NV}::NaiveForecaster._predict_last_window", "C11", cases=NV_CASES, inputs=_nv_inputs,
+contract(f"{NV}::NaiveForecaster._predict_last_window", "C11,C12", cases=NV_CASES, inputs=_nv_inputs,
          pre=lambda A: Or(A.self.attrs["strategy"] != "drift", A.self.attrs["window_length_"] >= 2),
          ensures=[("textbook-forecast-for-every-requested-step", _nv_post)],
          frame=lambda A: [A.self, A.self.attrs["_y"]],
